@@ -593,6 +593,10 @@ def fifths_mode_to_key_name(fifths, mode=None):
     else:
         raise Exception("Unknown mode {}".format(mode))
 
+    if not -7 <= fifths <= 7:
+        # negative list indices would silently map to another key
+        raise Exception("Unknown number of fifths {}".format(fifths))
+
     try:
         name = keylist[fifths + 7]
     except IndexError:
